@@ -56,3 +56,15 @@ package persistence
 //@   ensures [C13:lemma-result-is-last] old(keyID in s.Envelopes) ==> (forall m int64 :: m == createdKeys[len(createdKeys) - 1] ==> result == old(s.Envelopes[keyID][m]))
 //@   ensures [C13:latest-is-greatest] err == nil && (forall c int64 :: old(keyID in s.Envelopes && c in s.Envelopes[keyID]) ==> (exists m int64 :: old(m in s.Envelopes[keyID]) && result == old(s.Envelopes[keyID][m]) && c <= m))
 //@   ensures [C13:reads-change-nothing] forall id string, c int64 :: (id in s.Envelopes && c in s.Envelopes[id]) == old(id in s.Envelopes && c in s.Envelopes[id])
+
+// ---- C13: SQL metastore - the three statements are the documented ones (insert without upsert; exact-key select;
+// newest-first select limited to one row). Declarative: the backend's semantics for these texts are assumed. ----
+
+//@ lemma [C13:sql-store-is-plain-insert] defaultStoreKeyQuery == "INSERT INTO encryption_key (id, created, key_record) VALUES (?, ?, ?)"
+//@ lemma [C13:sql-load-selects-exact-key] defaultLoadKeyQuery == "SELECT key_record FROM encryption_key WHERE id = ? AND created = ?"
+//@ lemma [C13:sql-loadlatest-newest-first-limit-1] defaultLoadLatestQuery == "SELECT key_record from encryption_key WHERE id = ? ORDER BY created DESC LIMIT 1"
+
+//@ func NewSQLMetastore
+//@   facet C13
+//@   opt no-frame
+//@   ensures [C13:sql-defaults-wired] len(opts) == 0 ==> result != nil && result.db == dbHandle && result.storeKeyQuery == defaultStoreKeyQuery && result.loadKeyQuery == defaultLoadKeyQuery && result.loadLatestQuery == defaultLoadLatestQuery
